@@ -7,6 +7,7 @@ based on inputs.
 
 from __future__ import annotations
 
+import ast
 import typing
 from typing import List, Optional, Union
 
@@ -202,7 +203,24 @@ class MoveMethod:
     def _get_unchanged_body(self):
         return sourceutils.get_body(self.pyfunction)
 
-    def _get_body(self, host="host"):
+    def _get_host_name(self):
+        # the name for the object that used to be `self`; it must not collide
+        # with a name the method already uses
+        used = {
+            node.id
+            for node in ast.walk(self.pyfunction.get_ast())
+            if isinstance(node, ast.Name)
+        }
+        used.update(self.pyfunction.get_param_names(special_args=True))
+        used.discard(self._get_self_name())
+        host = "host"
+        while host in used:
+            host += "_"
+        return host
+
+    def _get_body(self, host=None):
+        if host is None:
+            host = self._get_host_name()
         self_name = self._get_self_name()
         body = self_name + " = None\n" + self._get_unchanged_body()
         pymodule = libutils.get_string_module(self.project, body)
@@ -218,7 +236,7 @@ class MoveMethod:
     def _get_new_header(self, name):
         header = "def %s(self" % name
         if self._is_host_used():
-            header += ", host"
+            header += ", " + self._get_host_name()
         definition_info = functionutils.DefinitionInfo.read(self.pyfunction)
         others = definition_info.arguments_to_string(1)
         if others:
